@@ -1101,6 +1101,7 @@ def run(ctx):
     cases += gen_intparams(ctx, st)
     cases += gen_zeros(ctx, st)
     cases += gen_oos_mrf(ctx, st)
+    cases += gen_sum_geo(ctx, st)
     cases += gen_lik_tgeo(ctx, st)          # new families go last: the random streams of the older generators stay as they were
     return Result(cases=cases, rule=RULE,
                   extra={"repair_state": {s: ("repaired" if v else "defect present") for s, v in st.items()}},
@@ -1388,6 +1389,42 @@ def gen_lik(ctx, st):
         out.append(case_lik(lik_meta(rng, ms, "cov", "scalar"), st, expect_refusal=True))
     ms = rand_model(rng, "nograd", ("default",))
     out.append(case_lik(lik_meta(rng, ms, "cov", "scalar"), st, expect_refusal=True))
+    return out
+
+
+def gen_sum_geo(ctx, st):
+    """Posterior / multiple-likelihood posterior whose likelihoods go through a domain geometry that supplies its own derivative
+    (quadratic, exp, sin elementwise maps): the composite's gradient against independently built factors and against finite
+    differences of the composite's own logd; direct construction and reduction of a JointDistribution"""
+    rng = ctx.rng
+    out = []
+    geos = [("quad", lambda: rand_mapped(rng)), ("exp", lambda: ["tmap+grad", "exp", rng.randint(0, 1)]), ("sin", lambda: ["tmap+grad", "sin", rng.randint(0, 1)])]
+    k = 0
+    for gname, mk in geos:
+        for pk in ("gauss", "gmrf", "cauchy"):
+            for fam, style in (("post", "direct"), ("post", "joint"), ("mlp", "direct")):
+                k += 1
+                if not ctx.thorough and k % 3 != 0 and not (pk == "gauss" and fam == "post"):
+                    continue
+                n = rng.randint(2, 3)
+                dom = mk()
+                parts = []
+                for _ in range(1 if fam == "post" else 2):
+                    ms = rand_model(rng, rng.choice(MODEL_KINDS), dom, n=n)
+                    form, ptype = rng.choice([("cov", "scalar"), ("cov", "matrix"), ("prec", "vector"), ("sqrtprec", "matrix")])
+                    lm = lik_meta(rng, ms, form, ptype)
+                    parts.append(lm)
+                if pk == "gauss":
+                    val, _, _ = gauss_param(rng, "cov", "matrix", n)
+                    prior = {"fam": "gauss", "form": "cov", "ptype": "matrix", "param": pm([[Fraction(v) for v in r] for r in val.tolist()]), "n": n, "mean": rand_mean(rng, n)}
+                elif pk == "gmrf":
+                    bc = rng.choice(["zero", "periodic"])
+                    prior = {"fam": "gmrf", "bc": bc, "order": rng.choice([1, 2]), "pd": 1, "n": n, "N": n, "geo2": None, "mean": rand_mean(rng, n), "prec": P_(rpos(rng))}
+                else:
+                    prior = {"fam": "sep", "sfam": "Cauchy", "n": n, "pars": [["v", pv(rvec(rng, n, nonzero=True))], ["s", P_(rpos(rng))], ["s", P_(0)]], "geom_n": True}
+                meta = {"fam": fam, "parts": parts + [prior], "n": n, "x": pv(rvec(rng, n, -1, 1)), "x1": pv(rvec(rng, n, -1, 1)), "style": style,
+                        "cellname": "%s-geo/%s/%s-prior/%s" % (fam, gname, pk, style)}
+                out.append(case_sum(meta, st))
     return out
 
 
@@ -3075,7 +3112,7 @@ def _replay_one(m):
     for c in cs:
         print("cell:", c.cell)
         print("property oracle on the implementation:", c.impl_fail or "holds", "| signature:", c.signature or "-")
-        if m.get("fam") not in ("dispatch", None) and "x" in m and m.get("fam") != "gallery":
+        if m.get("fam") not in ("dispatch", None, "oosmrf") and "x" in m and m.get("fam") != "gallery":
             try:
                 obj, dim = build(m) if m["fam"] != "sep" else (build_sep(m), m["n"])
                 x = fa(m["x"])
